@@ -186,7 +186,7 @@ def check(ctx, text, with_comments, origin):
 
 def run(ctx):
     def opts_fn(i, r):
-        return jsgen.Opts(clean=(i % 2 == 0), unicode_idents=(i % 6 == 0))
+        return jsgen.Opts(clean=(i % 2 == 0), unicode_idents=(i % 6 == 0), string_continuations=(i % 4 == 0))
     progs = work.Programs(ctx, ctx.pick(350, 8000), opts_fn=opts_fn,
                           layouts=('space', 'random_comments', 'lines', 'random_comments'))
     for text, meta in progs:
